@@ -1,7 +1,7 @@
 (* C12 — pinned statements only.  Each is closed by [exact] of a lemma proved in
    Hnsw/Proofs.v and followed by Print Assumptions. *)
 From Coq Require Import List ZArith Bool Arith Sorted.
-From Verif Require Import Hnsw.Model Hnsw.Proofs Hnsw.Fuel Hnsw.Run gen.Gen_Hnsw.
+From Verif Require Import Hnsw.Model Hnsw.Proofs Hnsw.Fuel Hnsw.Insert Hnsw.Run gen.Gen_Hnsw.
 Import ListNotations.
 Open Scope list_scope.
 
@@ -140,6 +140,76 @@ Proof.
 Qed.
 Print Assumptions C12_remove_frame.
 
+(* ---- insert and histories ----
+   What search soundness needs from insert: NOTHING - C12_search_sound holds for any graph,
+   so the layer drawn, the construction searches, select_neighbors (either strategy) and the
+   pruning of over-full lists are arbitrary parameters of the model ([layer_of], [edges_of],
+   [touched], [rewrite]); they can only affect recall.  What IS proved: insert keeps nodes and
+   ids in step, so remove_unreachable and load_bounded compose over whole histories. *)
+Theorem C12_insert_in_step :
+  forall layer_of edges_of touched rewrite ix id dim_ok finite_ok ix' r,
+    insert layer_of edges_of touched rewrite ix id dim_ok finite_ok = (ix', r) ->
+    (r <> InsOk /\ ix' = ix)
+    \/ (r = InsOk /\ clookup (ix_nodes ix) id = None
+        /\ (forall j, clookup (ix_nodes ix') j <> None <-> j = id \/ clookup (ix_nodes ix) j <> None)
+        /\ (forall j, In j (ix_ids ix') <-> j = id \/ In j (ix_ids ix))
+        /\ clookup (ix_nodes ix') (fst (ix_entry ix')) <> None
+        /\ ~ In id (ix_removed ix')).
+Proof. exact insert_spec. Qed.
+Print Assumptions C12_insert_in_step.
+
+(* any history of inserts (accepted or refused) and removes (with any re-link), started from
+   the empty index or from anything load_all accepted for any crash prefix, keeps
+   nodes = ids and a live entry point *)
+Theorem C12_history_in_step :
+  forall layer_of edges_of touched rewrite relink ops ix,
+    ((forall j, clookup (ix_nodes ix) j <> None <-> In j (ix_ids ix))
+     /\ (ix_nodes ix = [] \/ clookup (ix_nodes ix) (fst (ix_entry ix)) <> None)) ->
+    let ix' := run_ops layer_of edges_of touched rewrite relink ix ops in
+    (forall j, clookup (ix_nodes ix') j <> None <-> In j (ix_ids ix'))
+    /\ (ix_nodes ix' = [] \/ clookup (ix_nodes ix') (fst (ix_entry ix')) <> None).
+Proof. intros. apply history_wf. assumption. Qed.
+Print Assumptions C12_history_in_step.
+
+Theorem C12_history_after_crash_search_live :
+  forall layer_of edges_of touched rewrite relink
+         (K : Type) (leK gtK ltK : K -> K -> bool) (kmax : K) (Q : Type) (dist : Q -> Z -> K)
+         (q_ok : Q -> bool) (ef_search max_ef retries : nat),
+    (forall a b, leK a b = false -> leK b a = true) ->
+    forall cfg d ws kc ix0 ops q k rs,
+      load_all cfg (crash d ws kc) = Some ix0 ->
+      let ix := run_ops layer_of edges_of touched rewrite relink ix0 ops in
+      csearch K leK gtK ltK kmax Q dist q_ok ef_search max_ef retries ix q k = Ok rs ->
+      List.length rs <= k /\ NoDup (map fst rs)
+      /\ (forall id dd, In (id, dd) rs -> In id (ix_ids ix) /\ dd = dist q id)
+      /\ Sorted (fun a b => leK a b = true) (map snd rs).
+Proof.
+  intros layer_of edges_of touched rewrite relink K leK gtK ltK kmax Q dist q_ok ef_search max_ef retries Ht
+         cfg d ws kc ix0 ops q k rs El ix Es.
+  assert (Hwf : wf ix0) by (apply wf_loaded; eapply crash_prefix_load_bounded; exact El).
+  destruct (history_search_live layer_of edges_of touched rewrite relink K leK gtK ltK kmax Q dist q_ok
+              ef_search max_ef retries Ht ix0 ops q k rs Hwf Es) as [[A [B [C D]]] I].
+  split; [exact A|]. split; [exact B|]. split; [|exact D].
+  intros id dd H. split; [|apply (C _ _ H)].
+  apply I. apply in_map_iff. exists (id, dd). split; [reflexivity | exact H].
+Qed.
+Print Assumptions C12_history_after_crash_search_live.
+
+(* a history that ends with remove(id) never returns id, whatever came before *)
+Theorem C12_history_removed_absent :
+  forall layer_of edges_of touched rewrite relink
+         (K : Type) (leK gtK ltK : K -> K -> bool) (kmax : K) (Q : Type) (dist : Q -> Z -> K)
+         (q_ok : Q -> bool) (ef_search max_ef retries : nat),
+    (forall a b, leK a b = false -> leK b a = true) ->
+    forall ix0 ops id q k rs,
+      ((forall j, clookup (ix_nodes ix0) j <> None <-> In j (ix_ids ix0))
+       /\ (ix_nodes ix0 = [] \/ clookup (ix_nodes ix0) (fst (ix_entry ix0)) <> None)) ->
+      csearch K leK gtK ltK kmax Q dist q_ok ef_search max_ef retries
+              (run_ops layer_of edges_of touched rewrite relink ix0 (ops ++ [OpRemove id])) q k = Ok rs ->
+      ~ In id (map fst rs).
+Proof. intros. eapply history_removed_absent; eauto. Qed.
+Print Assumptions C12_history_removed_absent.
+
 (* the model's fuel (S |nodes| pops per layer search) always suffices on a stored graph:
    OutOfFuel is not an outcome, so the soundness statements cover every search that
    returns Ok and the only other outcomes are the code's own errors *)
@@ -201,6 +271,26 @@ Example C12_load_entry_tiebreak :
                                           (3, Some (3, 0, 2, true, [[1; 2]], true))]),
               Some ([1; 3], (3, 0), [(1, 1, [[3]; [3]]); (3, 0, [[1]])]))%Z = false.
 Proof. vm_compute. split; reflexivity. Qed.
+
+(* reconnect_on_delete: node 1 is removed; the implementation re-linked 2 -> [3; 4] drawing 4 from the
+   removed node's neighbours; accepted.  A list drawing an id from nowhere (9) is rejected. *)
+Example C12_remove_relink_nonvacuous :
+  check_remove_relink (([(1, 0, [[2; 3; 4]]); (2, 0, [[1; 3]]); (3, 0, [[1; 2]]); (4, 0, [[1]])], [1; 2; 3; 4], (1, 0), 1),
+                       (true, [2; 3; 4], (2, 0), [(2, 0, [[3; 4]]); (3, 0, [[2; 4]]); (4, 0, [[2; 3]])]))%Z = true
+  /\ check_remove_relink (([(1, 0, [[2; 3; 4]]); (2, 0, [[1; 3]]); (3, 0, [[1; 2]]); (4, 0, [[1]])], [1; 2; 3; 4], (1, 0), 1),
+                       (true, [2; 3; 4], (2, 0), [(2, 0, [[3; 9]]); (3, 0, [[2; 4]]); (4, 0, [[2; 3]])]))%Z = false.
+Proof. vm_compute. split; reflexivity. Qed.
+
+Example C12_history_nonvacuous :
+  let lo := fun (_ : index) (id : Z) => Z.to_nat (id mod 2) in
+  let eo := fun (ix : index) (id : Z) => [ckeys (ix_nodes ix)] in
+  let to := fun (ix : index) (_ : Z) => ckeys (ix_nodes ix) in
+  let rw := fun (id _ : Z) (n : node) => mkNode (n_layer n) (map (cons id) (n_nbrs n)) in
+  ix_ids (run_ops lo eo to rw (fun _ _ l => l) (mkIndex [] [] (0%Z, O) [] [])
+                  [OpInsert 1 true true; OpInsert 2 true true; OpInsert 2 true true; OpInsert 3 true false;
+                   OpRemove 1; OpInsert 4 true true; OpRemove 7])%Z
+  = [4; 2]%Z.
+Proof. vm_compute. reflexivity. Qed.
 
 Example C12_remove_nonvacuous :
   fst (run_remove ([(1, 1, [[2; 3]; [3]]); (2, 0, [[1; 3]]); (3, 1, [[1; 2]; [1]])], [1; 2; 3], (1, 1), 1)%Z)
